@@ -597,9 +597,9 @@ func FromAllocation(alloc channel.Allocation) (protoAlloc *Allocation, err error
 			return nil, errors.WithMessagef(err, "%d'th asset", i)
 		}
 	}
-	locked := make([]*SubAlloc, len(alloc.Locked))
+	protoAlloc.Locked = make([]*SubAlloc, len(alloc.Locked))
 	for i := range alloc.Locked {
-		locked[i], err = FromSubAlloc(alloc.Locked[i])
+		protoAlloc.Locked[i], err = FromSubAlloc(alloc.Locked[i])
 		if err != nil {
 			return nil, errors.WithMessagef(err, "%d'th sub alloc", i)
 		}
